@@ -32,6 +32,7 @@ type c12Scenario struct {
 	Yields  int     `json:"yields_in_work"`
 
 	probes    map[string]int
+	h         *Hist
 	items     []*c12Item
 	extra     []Violation
 	hung      bool
@@ -246,12 +247,15 @@ func (sc *c12Scenario) Run(s *simrt.Sim) {
 		child.Close()
 	}
 	s.Sleep(time.Second)
-	sc.extra = append(sc.extra, opPanics(h)...)
+	sc.h = h
 }
 
 func (sc *c12Scenario) Check(res *simrt.Result) []Violation {
 	var vs []Violation
 	vs = append(vs, goroutinePanics(res)...)
+	if sc.h != nil {
+		vs = append(vs, opPanics(sc.h)...)
+	}
 	vs = append(vs, sc.extra...)
 	add := func(clause, fp, detail string) {
 		vs = append(vs, Violation{Clause: clause, Fingerprint: sc.Kind + ":" + fp, Detail: detail})
